@@ -10,6 +10,7 @@ while args and args[0].startswith('--'):
     if args[0] == '--seeds': seeds = int(args[1]); args = args[2:]
     elif args[0] == '--rounds': rounds = int(args[1]); args = args[2:]
 want = args or sorted(props)
+subprocess.check_call([os.path.join(root, 'bin', 'verif'), 'build', '--race'], stdout=subprocess.DEVNULL)  # never test a stale binary
 def run(prop, procs, tag):
     binp = os.path.join(root, '.build', 'sim.race.test' if props[prop].get('race') else 'sim.test')
     out = tempfile.mktemp(prefix='det-', dir=os.path.join(root, '.build'))
